@@ -335,9 +335,9 @@ func run(c *vf.Ctx) {
 	c.Require("startup_shutdown_requested_while_start_in_progress", scaled(c.Pick(100, 2000), 10)) // the k-th started handler asked for the shutdown before Start() had returned
 	c.Require("query_bursts", nCfg*2)                                                              // scripted scenarios: bursts of read-only API calls at quiescent points, results compared with the model
 	c.Require("query_bursts_shutdown-requested", nCfg/2)
-	c.Require("stress_query_calls", 50000)                     // stress: the same calls racing with everything else
+	c.Require("stress_query_calls", 50000)                    // stress: the same calls racing with everything else
 	c.Require("rereg_run_seen_waiting_after_acceptance", 200) // Run oracle of the stress: acceptances after which Run was seen still waiting
-	c.Require("rereg_last_worker_mode", 1000)                  // Run waiting while the only running worker exits and its name is re-registered at once
+	c.Require("rereg_last_worker_mode", 1000)                 // Run waiting while the only running worker exits and its name is re-registered at once
 	c.Require("rereg_accepted", 10000)
 	c.Require("rereg_attempts_while_old_worker_exiting", scaled(50, 5)) // refusals observed after the old handler had returned: the call raced the exit path
 	c.Require("rereg_accepted_early", scaled(8, 1))                     // ... and the retry was then accepted
